@@ -17,7 +17,7 @@ func init() {
 	core.Register(&core.Prop{
 		ID:    "C14",
 		Level: "exploration",
-		Rule: "PRNG include graphs (acyclic, depth <= 4, up to 7 files) of generated templates laid out in nested temporary directories; every file is independently: on disk only / in the cache only (ParseTemplateAndCache) / both with different content (disk must win) / missing; include arguments are literals, variables and filtered expressions; the top-level template is parsed with an absolute path, a relative path or no path (cwd), and includes occur inside loops, conditionals and captures after assigns. The output is compared with the reference model inlining the graph. Failure cases: missing file at any depth, nil/int/array/map argument, render error / syntax error / unknown tag inside an included file at any depth, a directory or a path through a regular file. Non-trivial = at least one include is executed; distinct = distinct (graph sources, presence states, path mode).",
+		Rule: "PRNG include graphs (acyclic, depth <= 4, up to 7 files) of generated templates laid out in nested temporary directories; every file is independently: on disk only / in the cache only (ParseTemplateAndCache) / both with different content (disk must win) / missing; include arguments are literals, variables and filtered expressions; the top-level template is parsed with an absolute path, a relative path or no path (cwd), and includes occur inside loops, conditionals and captures after assigns. The output is compared with the reference model inlining the graph (files end with nothing, LF, CRLF or blank lines). Cache lifecycle: an includer parsed before its partial is registered, then the partial registered five times under one path (long, short, empty, longer) - every render of the old and of a freshly parsed includer inserts what the latest registration renders. Failure cases: missing file at any depth, nil/int/array/map argument, render error / syntax error / unknown tag inside an included file at any depth, a directory or a path through a regular file. Non-trivial = at least one include is executed; distinct = distinct (graph sources, presence states, path mode).",
 		Exhaustive: func(string) bool { return false },
 		Assumptions: []string{
 			"included files are resolved relative to the directory of the top-level template's parse path at every depth, also when the including file itself lies in a sub-directory (the engine parses an included file at its includer's location; the statement says: the path the template being rendered was parsed with, and: exactly the output that rendering the content inline gives)",
@@ -81,7 +81,8 @@ func c14Case(c *core.Ctx, r *core.Rand, i int, caseDir string) {
 		feat := gen.Features{Loops: true, Case: true, Filters: true, Model: true, Include: later, MaxDepth: 2, MaxNodes: 7}
 		g := gen.NewG(r, feat, env)
 		f.prog = append([]gen.Node{gen.Text{S: "[" + args[k] + ":"}}, g.Program()...)
-		f.prog = append(f.prog, gen.Out{E: gen.Var{Name: "v1"}}, gen.Out{E: gen.Var{Name: "i"}}, gen.Text{S: "]"})
+		// files end the way editors end them: with nothing, a newline, CRLF, or blank lines
+		f.prog = append(f.prog, gen.Out{E: gen.Var{Name: "v1"}}, gen.Out{E: gen.Var{Name: "i"}}, gen.Text{S: "]" + []string{"", "", "\n", "\r\n", "\n\n", " \n"}[r.Intn(6)]})
 		for _, l := range later {
 			if r.Bool() {
 				f.prog = append(f.prog, gen.Include{E: gen.Lit{V: gen.Str(l)}})
@@ -239,6 +240,9 @@ func c14Case(c *core.Ctx, r *core.Rand, i int, caseDir string) {
 		c.Sample(map[string]any{"graph": core.Trunc(desc, 700), "output": core.Trunc(res.Out, 200)})
 	}
 	c14Extra(c, r, i, cwd)
+	if i%4 == 0 {
+		c14CacheLifecycle(c, r, cwd)
+	}
 	// natural non-ENOENT faults: a directory where a file is expected, a path through a regular file
 	if i%10 == 0 {
 		for _, arg := range []string{"sub", "top-is-a-file/x.html"} {
@@ -314,6 +318,51 @@ func c14Extra(c *core.Ctx, r *core.Rand, i int, cwd string) {
 	if !solo.Same(after) || !first.Same(again) || solo.Panic != "" {
 		c.Violate("include|depends-on-earlier-renders", "a template with includes rendered differently on an engine that had rendered another template (sharing a partial) before",
 			map[string]any{"top1": top1, "top2": top2, "top2_on_fresh_engine": solo.Brief(), "top2_after_top1": after.Brief(), "top1_first": first.Brief(), "top1_again": again.Brief()})
+	}
+}
+
+// c14CacheLifecycle: the cache is consulted when the include executes - a source registered after the includer was
+// parsed is found, and registering a path again (shorter, empty, longer) replaces what it includes.
+func c14CacheLifecycle(c *core.Ctx, r *core.Rand, cwd string) {
+	env := gen.StdEnv(r)
+	b := gen.CanonEnv(env)
+	dir := filepath.Join(cwd, "life")
+	os.MkdirAll(dir, 0o755)
+	e := liquid.NewEngine()
+	name := fmt.Sprintf("late%d.html", r.Intn(1000))
+	topSrc := "[{% include '" + name + "' %}|{% for i in (1..2) %}{% include '" + name + "' %}{% endfor %}]"
+	top, pr := core.Parse(e, topSrc, filepath.Join(dir, "top.liquid"), 1)
+	if !pr.OK() {
+		c.Violate("include|cache-lifecycle|parse", "the includer does not parse", map[string]any{"source": topSrc, "observed": pr.Brief()})
+		return
+	}
+	before := core.Render(top, b)
+	c.Eval(1)
+	if !before.Failed() {
+		c.Violate("include|cache-lifecycle|missing-not-reported", "an include of a file that is neither on disk nor registered must fail the render", map[string]any{"source": topSrc, "observed": before.Brief()})
+	}
+	versions := []string{"<li class=\"item\">{{ s | upcase }}, {{ n }}</li> and a good deal of trailing text " + strings.Repeat("x", r.Intn(40)), "<li>{{ n }}</li>", "", "v4 {{ n | plus: 1 }}{% if t %} yes{% endif %} " + strings.Repeat("longer than all before ", 3), "z"}
+	shuffled := make([]string, 0, len(versions))
+	for _, j := range r.Perm(len(versions)) {
+		shuffled = append(shuffled, versions[j])
+	}
+	versions = shuffled
+	for k, v := range versions {
+		if _, cr := core.ParseCache(e, v, filepath.Join(dir, name), 1); !cr.OK() {
+			c.Violate("include|cache-lifecycle|registration", "ParseTemplateAndCache rejected a valid template", map[string]any{"source": v, "observed": cr.Brief()})
+			return
+		}
+		alone := core.Run(e, v, b)
+		got := core.Render(top, b)
+		fresh := core.RunAt(e, topSrc, filepath.Join(dir, "top.liquid"), 1, b)
+		c.Eval(3)
+		c.Obs("cache_lifecycle_steps", 1)
+		want := "[" + alone.Out + "|" + alone.Out + alone.Out + "]"
+		if !alone.OK() || !got.OK() || got.Out != want || !fresh.Same(got) {
+			c.Violate("include|cache-lifecycle|"+resClass(got), "after a path is registered (again) with ParseTemplateAndCache, an include of it must insert exactly what the newly registered source renders - also in a template that was parsed before the registration",
+				map[string]any{"includer": topSrc, "registration_number": k + 1, "registered_source": v, "earlier_registrations": versions[:k], "expected": want, "parsed_before_registration": got.Brief(), "parsed_after_registration": fresh.Brief()})
+			return
+		}
 	}
 }
 
